@@ -535,6 +535,10 @@ class UnionMetaType(StructureMetaType):
                 anonymous_struct = field.type
                 continue
 
+            if anonymous_struct and (anonymous_struct.size or 0) > (field.type.size or 0):
+                # The anonymous struct is strictly larger than any regular field, so it has to be written instead
+                break
+
             # Write the value
             field.type._write(stream, getattr(data, field._name))
             break
